@@ -965,6 +965,18 @@ func (w *_assembler) AssignString(s string) error {
 	if err := compatibleKind(w.schemaType, datamodel.Kind_String); err != nil {
 		return err
 	}
+	if typ, ok := w.schemaType.(*schema.TypeEnum); ok {
+		valid := false
+		for _, member := range typ.Members() {
+			if member == s {
+				valid = true
+				break
+			}
+		}
+		if !valid {
+			return fmt.Errorf("AssignString: %q is not a valid member of enum %s", s, typ.Name())
+		}
+	}
 	customConverter := w.cfg.converterFor(w.schemaType.Name(), w.val)
 	_, isAny := w.schemaType.(*schema.TypeAny)
 	if customConverter != nil {
